@@ -527,8 +527,10 @@ def run_check(P: Prop, tier: str, seed: int, replay: str | None = None) -> int:
         "violations": len(violations),
     }
     if not replay:
-        EVIDENCE.mkdir(exist_ok=True)
-        (EVIDENCE / f"{P.id}.json").write_text(json.dumps(ev, indent=1, default=str))
+        # runs against a scratch tree (VERIF_REPO set) are experiments: their evidence does not replace the real one
+        evdir = EVIDENCE if str(REPO) == "/repo" else WORK / "evidence_scratch"
+        evdir.mkdir(parents=True, exist_ok=True)
+        (evdir / f"{P.id}.json").write_text(json.dumps(ev, indent=1, default=str))
 
     for fid, (fd, c, n) in known_hits.items():
         print(f"KNOWN-FINDING: property={P.id} {fd['what']} [{fid}; {n} case(s) this run]")
